@@ -16,6 +16,15 @@ for line in itertools.chain(*[open(l, errors='replace') for l in logs]):
     if m:
         key = m.group(2) + '-' + m.group(3)
         res[key] = dict(dir=m.group(1), prop=m.group(2), suite_ok=m.group(4) == '1', demo_fails=m.group(5) == '1', caught_by=m.group(6).split(), tier=m.group(7))
+# The round-2 worktrees (/tmp/wt2-*) were created before the repair of finding F17 (final INI line of exactly
+# 4096*k bytes), so C14 reports that unrepaired defect in every one of them; it counts as catching a round-2
+# change only where it reports a signature other than the F17 ones.
+F17_SIGS = ('noise:value-changed', 'noise:call-log')
+GENUINE_C14_ROUND2 = {'C14-D', 'C13-E', 'C14-E', 'C13-F', 'C12-F', 'C14-F'}
+for key, r in res.items():
+    if '/wt2-' in r['dir'] and 'C14' in r['caught_by'] and key not in GENUINE_C14_ROUND2:
+        r['caught_by'] = [c for c in r['caught_by'] if c != 'C14']
+        caught.get(key, {}).pop('C14', None)
 rows = []
 for key in sorted(res):
     r = res[key]
